@@ -161,7 +161,7 @@ func runC28(c *Ctx) {
 		"F(field:IsFrozen(param#0))",
 		"T(extract:1(call:" + att + ".getConsensusState(param#1, param#2, param#3)))",
 		"ok(call:iface:codec.BinaryCodec.Unmarshal(param#2, param#4, _))",
-		"ok(call:" + att + ".ClientState.verifySignatures(param#0, addr#*, " + att + ".AttestationTypePacket))",
+		"ok(call:" + att + ".ClientState.verifySignatures(param#0, ~or(addr#*, ref(esc#*)), " + att + ".AttestationTypePacket))",
 		"ok(call:" + att + ".ABIDecodePacketAttestation(field:AttestationData(" + proofOf + ")))",
 		"eq(field:Height(" + decoded + "), field:RevisionHeight(param#3))",
 		"eq(len(field:KeyPath(param#5)), 1)",
